@@ -2,7 +2,7 @@
 import re
 
 from analysis import (Prov, Guards, fmt, fmt_short, walk, roots, short, comparison, find_calls, callee_matches,
-                      must_pass, path_to, describe_path, peel_await, edge_label, closures_of, closure_return_in_caller_terms)
+                      must_pass, path_to, describe_path, peel_await, edge_label, closures_of, closure_return_in_caller_terms, const_int_of, option_edges)
 from facts import AnchorError, strip_closure
 from harness import Rule, guarded
 
@@ -375,6 +375,58 @@ def r3(ctx):
     return rule
 
 
+def whole_address_form(facts, ve):
+    """verify_enr written as one comparison of whole socket addresses:
+        let advertised = match node_address.socket_addr { V4(_) => enr.udp4_socket().map(SocketAddr::V4), V6(_) => enr.udp6_socket().map(SocketAddr::V6) };
+        match advertised { Some(a) => a == node_address.socket_addr, None => true }
+    Returns None if the function is not of this form, else {"fam": {arm: (record socket read, wrapper)}, "absent_passes": bool}."""
+    p = Prov(ve, facts)
+    g = Guards(ve, p, facts)
+    ret = p.local(0)
+    alts = list(ret[1]) if ret[0] == "phi" else [ret]
+    cmps = [a for a in alts if const_int_of(a) not in (0, 1)]
+    if len(cmps) != 1:
+        return None
+    c = comparison(cmps[0])
+    if not c or c[0] != "==":
+        return None
+    obs = [x for x in (c[1], c[2]) if fmt_short(x) == "node_address.socket_addr"]
+    adv = [x for x in (c[1], c[2]) if fmt_short(x) != "node_address.socket_addr"]
+    if len(obs) != 1 or len(adv) != 1:
+        return None
+    opts = []
+    for a in (adv[0][1] if adv[0][0] == "phi" else [adv[0]]):
+        if not (a[0] == "field" and a[2] == "0" and a[1][0] == "as" and a[1][2] == "Some"):
+            return None
+        o = a[1][1]
+        opts += list(o[1]) if o[0] == "phi" else [o]
+    # which arm of `match node_address.socket_addr` builds which alternative
+    arms = {}
+    for bi, t, e in g.switches():
+        if e[0] == "discr" and fmt_short(e[1]) == "node_address.socket_addr":
+            names, _ = g.variant_names(bi)
+            for v, tb in t.vals:
+                arms[names.get(v, str(v))] = (tb, [ob for ov, ob in t.vals if ob != tb])
+    fam = {}
+    for x in opts:
+        if not (x[0] == "call" and short(x[1]).endswith("Option::map") and len(x[2]) == 2 and x[3]):
+            return None
+        m = re.search(r"SocketAddr::(V4|V6)\b", fmt(x[2][1]))
+        if not m:
+            return None
+        blk = x[3][1]
+        for nm, (tb, others) in arms.items():
+            if blk in ve.reachable(tb) and not any(blk in ve.reachable(ob) for ob in others):
+                fam[nm] = (fmt_short(x[2][0]), m.group(1))
+    # an absent endpoint passes: `true` is returned on the None edge of the option
+    so, no = option_edges(g, lambda y: all(z in opts for z in (y[1] if y[0] == "phi" else [y])))
+    true_blocks = [blk for lhs, kind, payload, blk, _l in p.defs.get(0, ()) if kind == "rv" and payload.k == "use" and payload.ops[0].const_int() == 1 and blk in ve.live_blocks()]
+    absent = bool(no) and bool(true_blocks) and all(tb not in ve.reachable(0, removed_edges=no) for tb in true_blocks)
+    cmp_blocks = [blk for lhs, kind, payload, blk, _l in p.defs.get(0, ()) if blk in ve.live_blocks() and not (kind == "rv" and payload.k == "use" and payload.ops[0].const_int() in (0, 1))]
+    present = bool(so) and all(cb not in ve.reachable(0, removed_edges=so) for cb in cmp_blocks)
+    return {"fam": fam, "absent_passes": absent, "present_compared": present}
+
+
 def r4(ctx):
     facts = ctx.facts
     rule = Rule("C01.R4", "HandlerOut::Established for a network-supplied record only past verify_enr(record, "
@@ -409,6 +461,10 @@ def r4(ctx):
         c = comparison(p.local(0))
         if c and c[0] == "==" and {fmt_short(c[1]), fmt_short(c[2])} == {"socket_addr", "advertized_addr"}:
             okc += 1
+    if okc != 2:
+        w = whole_address_form(facts, ve)
+        if w and w["fam"].get("V4") == ("Enr::udp4_socket(enr)", "V4") and w["fam"].get("V6") == ("Enr::udp6_socket(enr)", "V6") and w["absent_passes"] and w["present_compared"]:
+            okc = 2
     rule.check(okc == 2, "verify_enr compares the advertised udp4/udp6 socket with the observed one (absent passes)", "verify_enr|address",
                "verify_enr no longer compares the record's UDP socket with the observed source (%d of 2 closures)" % okc, loc=ve.loc(ve.line))
     # constructions of Established
